@@ -124,6 +124,11 @@ fn note_net_call() {
     }
 }
 
+/// Real-HTTP transport: a request reached the scripted server.
+pub fn note_net_call_http() {
+    NET_CALLS.fetch_add(1, Ordering::SeqCst);
+}
+
 fn check_cb(_url: &str, req: hooks::PatchCheckRequest) -> anyhow::Result<hooks::PatchCheckResponse> {
     note_net_call();
     crate::hung::maybe_hang(2);
@@ -588,6 +593,12 @@ impl Runner {
             st.event_results.clear();
             st.events_seen = 0;
         }
+        let http = crate::http::HTTP_MODE.load(Ordering::SeqCst);
+        if http {
+            crate::http::OP_NONCE.store(crate::http::nonce_of(&render_op(op, None)), Ordering::SeqCst);
+            crate::http::CHECK_FAULTED.store(false, Ordering::SeqCst);
+            crate::http::DL_FAULTED.store(false, Ordering::SeqCst);
+        }
         act_log_start();
         let ret = match op {
             Op::Init { version, dirs, libs, yaml } => {
@@ -605,11 +616,20 @@ impl Runner {
                     code_cache_dir: ca_dir.as_ptr(),
                 };
                 let cbs = capi::FileCallbacks { open: fc_open, read: fc_read, seek: fc_seek, close: fc_close };
-                let y = cstr(&yaml_text(yaml));
+                // real-HTTP transport: the library keeps its default network hooks and is pointed at the scripted server
+                let yaml_eff = match (http, yaml) {
+                    (true, Ok(y)) => Ok(Yaml { base_url: Some(crate::http::base_url()), ..y.clone() }),
+                    _ => yaml.clone(),
+                };
+                let y = cstr(&yaml_text(&yaml_eff));
                 let ok = capi::shorebird_init(&params, cbs, y.as_ptr());
                 // `true` also when this init failed after configuring (FailedToCleanUpFailedPatch)
                 act_log_pause();
-                self.inited = install_net_hooks();
+                if http {
+                    self.inited = self.inited || ok;
+                } else {
+                    self.inited = install_net_hooks();
+                }
                 act_log_resume();
                 if ok { "b1".to_string() } else { "b0".to_string() }
             }
@@ -678,7 +698,16 @@ impl Runner {
                     (status, msg)
                 };
                 unsafe { capi::shorebird_free_update_result(r as *mut capi::UpdateResult) };
-                classify_update_message(status, &msg)
+                let mut tok = classify_update_message(status, &msg);
+                if http && tok.ends_with(":other") {
+                    // with real HTTP the error text is reqwest's; the failing stage is the one the server made fail
+                    if crate::http::CHECK_FAULTED.load(Ordering::SeqCst) {
+                        tok = format!("s{}:check", status);
+                    } else if crate::http::DL_FAULTED.load(Ordering::SeqCst) {
+                        tok = format!("s{}:dl", status);
+                    }
+                }
+                tok
             }
             Op::Dmg(d) => {
                 self.damage(d);
